@@ -73,6 +73,13 @@ class Module:
             if self.inlined:
                 normalise(self.tree)
                 _renumber(self.tree)
+        self.folded: list[str] = []
+        if repo.baseline is not None and os.environ.get('VERIF_NO_FOLD') != '1':
+            try:
+                from .baseline import NAMES
+                self.folded = _fold_new_constants(self.tree, set(NAMES.get(name, ())))
+            except ImportError:
+                pass
         self.imports: dict[str, str] = {}
         self.funcs: dict[str, Func] = {}
         self.classes: dict[str, ast.ClassDef] = {}
@@ -192,6 +199,135 @@ class Module:
         return f'<Module {self.name}>'
 
 
+def _literal(e: ast.AST, imported: set, depth: int = 0) -> bool:
+    """an expression whose value is fixed when the module is loaded and that has no identity worth sharing: numbers, strings, tuples / frozensets
+    of those, arithmetic over them, and attribute chains rooted at an imported module (np.int32)"""
+    if depth > 6:
+        return False
+    if isinstance(e, ast.Constant):
+        return True
+    if isinstance(e, (ast.Tuple, ast.List, ast.Set)):
+        # (lists / sets / dicts only for names that the module never mutates: see _fold_new_constants)
+        return all(_literal(x, imported, depth + 1) for x in e.elts)
+    if isinstance(e, ast.Dict):
+        return all(k is not None and _literal(k, imported, depth + 1) for k in e.keys) and all(_literal(v, imported, depth + 1) for v in e.values)
+    if isinstance(e, ast.UnaryOp) and isinstance(e.op, (ast.USub, ast.UAdd, ast.Not, ast.Invert)):
+        return _literal(e.operand, imported, depth + 1)
+    if isinstance(e, ast.BinOp):
+        return _literal(e.left, imported, depth + 1) and _literal(e.right, imported, depth + 1)
+    if isinstance(e, ast.Call) and isinstance(e.func, ast.Name) and e.func.id == 'frozenset' and len(e.args) <= 1 and not e.keywords:
+        return all(isinstance(a, (ast.Set, ast.Tuple, ast.List)) and all(_literal(x, imported, depth + 1) for x in a.elts) for a in e.args)
+    if isinstance(e, ast.Attribute):
+        cur = e
+        while isinstance(cur, ast.Attribute):
+            cur = cur.value
+        return isinstance(cur, ast.Name) and cur.id in imported
+    return False
+
+
+def _fold_new_constants(tree: ast.Module, known: set) -> list:
+    """A module-level constant that the confirmed tree did not have (`FULL_SAMPLE = 1.0`, `LABEL_SEPARATOR = '-'`, `CODE_DTYPE = np.int32`) is
+    replaced by its value wherever a function of the module reads it: naming a literal changes nothing, and the rules compare values.  Only names
+    bound exactly once at module level, to a literal, never declared global, and not re-bound in the reading function are folded."""
+    import copy
+    imported = set()
+    for n in tree.body:
+        if isinstance(n, ast.Import):
+            imported |= {(a.asname or a.name).split('.')[0] for a in n.names}
+        elif isinstance(n, ast.ImportFrom):
+            imported |= {a.asname or a.name for a in n.names}
+    bound: dict[str, list] = {}
+    for n in tree.body:
+        for t, v in _assign_targets(n):
+            bound.setdefault(t, []).append(v)
+        if isinstance(n, (ast.For, ast.With, ast.If, ast.Try, ast.While)):
+            for x in ast.walk(n):
+                if isinstance(x, ast.Name) and isinstance(x.ctx, ast.Store):
+                    bound.setdefault(x.id, []).append(None)
+    globs = {g for n in ast.walk(tree) if isinstance(n, ast.Global) for g in n.names}
+    # names whose object is changed in place somewhere in the module: a mutable literal bound to such a name is state, not a constant
+    mutated = set()
+    for n in ast.walk(tree):
+        if isinstance(n, ast.Call) and isinstance(n.func, ast.Attribute) and isinstance(n.func.value, ast.Name) and n.func.attr in ('append', 'extend', 'insert', 'update', 'add', 'pop', 'remove', 'clear', 'sort', 'reverse', 'setdefault', 'discard', 'popitem'):
+            mutated.add(n.func.value.id)
+        elif isinstance(n, (ast.Assign, ast.AugAssign, ast.Delete)):
+            for t in (n.targets if isinstance(n, (ast.Assign, ast.Delete)) else [n.target]):
+                b = t
+                while isinstance(b, (ast.Subscript, ast.Attribute)):
+                    b = b.value
+                if b is not t and isinstance(b, ast.Name):
+                    mutated.add(b.id)
+                if isinstance(n, ast.AugAssign) and isinstance(t, ast.Name):
+                    mutated.add(t.id)
+
+    def _has_mutable(e):
+        return any(isinstance(x, (ast.List, ast.Set, ast.Dict)) for x in ast.walk(e))
+    consts = {k: vs[0] for k, vs in bound.items() if len(vs) == 1 and vs[0] is not None and k not in known and k not in globs and k not in imported and _literal(vs[0], imported)
+              and not (_has_mutable(vs[0]) and k in mutated)}
+    # a constant defined through another new constant
+    for _ in range(3):
+        for k, v in list(consts.items()):
+            pass
+    if not consts:
+        return []
+
+    class _R(ast.NodeTransformer):
+        def __init__(self, shadow):
+            self.shadow = shadow
+
+        def visit_Name(self, node):
+            if isinstance(node.ctx, ast.Load) and node.id in consts and node.id not in self.shadow:
+                return ast.copy_location(copy.deepcopy(consts[node.id]), node)
+            return node
+    folded = set()
+    # constants may be written in terms of earlier new constants:  B = A + 1
+    for k in list(consts):
+        consts[k] = _R(set()).visit(copy.deepcopy(consts[k]))
+    for fn in ast.walk(tree):
+        if isinstance(fn, (ast.FunctionDef, ast.AsyncFunctionDef, ast.Lambda)):
+            a = fn.args
+            shadow = {x.arg for x in a.posonlyargs + a.args + a.kwonlyargs} | ({a.vararg.arg} if a.vararg else set()) | ({a.kwarg.arg} if a.kwarg else set())
+            body = fn.body if isinstance(fn.body, list) else [fn.body]
+            for b in body:
+                for x in ast.walk(b):
+                    if isinstance(x, ast.Name) and isinstance(x.ctx, (ast.Store, ast.Del)):
+                        shadow.add(x.id)
+            used = {x.id for b in body for x in ast.walk(b) if isinstance(x, ast.Name) and isinstance(x.ctx, ast.Load) and x.id in consts and x.id not in shadow}
+            if not used:
+                continue
+            folded |= used
+            r = _R(shadow)
+            if isinstance(fn.body, list):
+                fn.body = [r.visit(b) for b in fn.body]
+                fn.decorator_list = [r.visit(d) for d in fn.decorator_list]
+                for i, d in enumerate(a.defaults):
+                    a.defaults[i] = r.visit(d)
+                for i, d in enumerate(a.kw_defaults):
+                    if d is not None:
+                        a.kw_defaults[i] = r.visit(d)
+            else:
+                fn.body = r.visit(fn.body)
+    # module-level statements read them too (np.random.seed(SEED), OTHER = f(CONST)); the defining assignments stay as they are
+    defining = {id(v) for v in consts.values()}
+    for i, st in enumerate(tree.body):
+        if isinstance(st, (ast.FunctionDef, ast.AsyncFunctionDef, ast.ClassDef, ast.Import, ast.ImportFrom)):
+            continue
+        if any(t in consts for t, _v in _assign_targets(st)):
+            continue
+        used = {x.id for x in ast.walk(st) if isinstance(x, ast.Name) and isinstance(x.ctx, ast.Load) and x.id in consts}
+        if used and not any(isinstance(x, (ast.FunctionDef, ast.AsyncFunctionDef, ast.Lambda, ast.ClassDef)) for x in ast.walk(st)):
+            folded |= used
+            tree.body[i] = _R(set()).visit(st)
+    # class bodies (dataclass defaults, class attributes) read them too
+    for c in ast.walk(tree):
+        if isinstance(c, ast.ClassDef):
+            for st in c.body:
+                if isinstance(st, (ast.Assign, ast.AnnAssign)) and st.value is not None:
+                    st.value = _R(set()).visit(st.value)
+    ast.fix_missing_locations(tree)
+    return sorted(folded)
+
+
 def _renumber(tree: ast.AST) -> None:
     """After helper expansion the statements of a function no longer appear in line order (expanded statements keep the lines of the
     helper).  Rules compare positions by line number, so every node gets a line number that follows the program order of the
@@ -221,6 +357,21 @@ def normalise(tree: ast.AST) -> None:
       * `x = x + y` / `x = x - y`        ->  `x += y` / `x -= y`        (plain names)
       * `t = <expr>; return t`           ->  `return <expr>`            (t used nowhere else)
     Line numbers of the surviving nodes are kept."""
+    # `if True: A else: B` -> A ; `if False: A else: B` -> B    (left behind when a helper with a flag parameter is expanded at a call site)
+    for holder in ast.walk(tree):
+        for field in ('body', 'orelse', 'finalbody'):
+            body = getattr(holder, field, None)
+            if not isinstance(body, list) or not any(isinstance(st, ast.If) and isinstance(st.test, ast.Constant) and isinstance(st.test.value, bool) for st in body):
+                continue
+            out = []
+            for st in body:
+                if isinstance(st, ast.If) and isinstance(st.test, ast.Constant) and isinstance(st.test.value, bool):
+                    out += (st.body if st.test.value else st.orelse)
+                else:
+                    out.append(st)
+            if not out and field == 'body':
+                out = [ast.copy_location(ast.Pass(), body[0])]
+            setattr(holder, field, out)
     # head, *rest = <expr>   ->   head = <expr>[0]; rest = <expr>[1:]      (the expression is a pure split / list in this code base)
     for holder in ast.walk(tree):
         for field in ('body', 'orelse', 'finalbody'):
@@ -250,6 +401,7 @@ def normalise(tree: ast.AST) -> None:
             n.body, n.orelse = n.orelse, n.body
     for fn in [x for x in ast.walk(tree) if isinstance(x, (ast.FunctionDef, ast.AsyncFunctionDef))]:
         _inline_attr_aliases(fn)
+        _fuse_batch_counter(fn)
     for fn in [x for x in ast.walk(tree) if isinstance(x, (ast.FunctionDef, ast.AsyncFunctionDef, ast.Module))]:
         counts = {}
         pairs = {}
@@ -296,6 +448,78 @@ def normalise(tree: ast.AST) -> None:
                     out.append(st)
                     i += 1
                 body[:] = out
+
+
+def _fuse_batch_counter(fn) -> None:
+    """A local counter that only collects increments and is then merged, item by item, into another counter
+
+          L = Counter();  ... L[k] += 1 ...;  for k, n in L.items(): S[k] += n          ->          ... S[k] += 1 ...
+
+    is the direct counting into S (the same final contents of S; L is used for nothing else).  A local alias `A = L` that is only iterated by
+    the merge loop counts as L."""
+    import copy
+    for _ in range(3):
+        inits = {}
+        for n in ast.walk(fn):
+            if isinstance(n, ast.Assign) and len(n.targets) == 1 and isinstance(n.targets[0], ast.Name) and isinstance(n.value, ast.Call) and not n.value.args and not n.value.keywords \
+                    and ast.unparse(n.value.func) in ('Counter', 'collections.Counter'):
+                inits.setdefault(n.targets[0].id, []).append(n)
+            elif isinstance(n, ast.Assign) and len(n.targets) == 1 and isinstance(n.targets[0], ast.Name) and isinstance(n.value, ast.Call) and ast.unparse(n.value.func) in ('defaultdict', 'collections.defaultdict') \
+                    and len(n.value.args) == 1 and isinstance(n.value.args[0], ast.Name) and n.value.args[0].id == 'int' and not n.value.keywords:
+                inits.setdefault(n.targets[0].id, []).append(n)
+        done = False
+        for L, ini in inits.items():
+            if len(ini) != 1:
+                continue
+            names = {L}
+            alias_stmts = []
+            for n in ast.walk(fn):
+                if isinstance(n, ast.Assign) and len(n.targets) == 1 and isinstance(n.targets[0], ast.Name) and isinstance(n.value, ast.Name) and n.value.id == L and n.targets[0].id != L:
+                    names.add(n.targets[0].id)
+                    alias_stmts.append(n)
+            # every use of L (and its alias)
+            incs, merges, other = [], [], 0
+            for n in ast.walk(fn):
+                if isinstance(n, ast.AugAssign) and isinstance(n.op, ast.Add) and isinstance(n.target, ast.Subscript) and isinstance(n.target.value, ast.Name) and n.target.value.id == L \
+                        and isinstance(n.value, ast.Constant) and n.value.value == 1:
+                    incs.append(n)
+                elif isinstance(n, ast.For) and isinstance(n.iter, ast.Call) and isinstance(n.iter.func, ast.Attribute) and n.iter.func.attr == 'items' and not n.iter.args \
+                        and isinstance(n.iter.func.value, ast.Name) and n.iter.func.value.id in names and isinstance(n.target, ast.Tuple) and len(n.target.elts) == 2 \
+                        and all(isinstance(x, ast.Name) for x in n.target.elts) and not n.orelse and len(n.body) == 1 and isinstance(n.body[0], ast.AugAssign) and isinstance(n.body[0].op, ast.Add) \
+                        and isinstance(n.body[0].target, ast.Subscript) and isinstance(n.body[0].target.value, ast.Name) and n.body[0].target.value.id not in names \
+                        and isinstance(n.body[0].target.slice, ast.Name) and n.body[0].target.slice.id == n.target.elts[0].id and isinstance(n.body[0].value, ast.Name) and n.body[0].value.id == n.target.elts[1].id:
+                    merges.append(n)
+            uses = [x for x in ast.walk(fn) if isinstance(x, ast.Name) and x.id in names]
+            accounted = len(ini) + len(alias_stmts) * 2 + len(incs) + len(merges)
+            if len(merges) != 1 or not incs or len(uses) != accounted:
+                continue
+            S = merges[0].body[0].target.value.id
+            # S must not be read or written between the first increment and the merge (the guards of the increments may test other things)
+            order = {}
+
+            def _number(node):
+                order[id(node)] = len(order)
+                for c in ast.iter_child_nodes(node):
+                    _number(c)
+            _number(fn)
+            lo, hi = min(order[id(i)] for i in incs), order[id(merges[0])]
+            if any(isinstance(x, ast.Name) and x.id == S and lo <= order[id(x)] < hi for x in ast.walk(fn)):
+                continue
+            for i in incs:
+                i.target.value = ast.copy_location(ast.Name(S, ast.Load()), i.target.value)
+            drop = {id(ini[0]), id(merges[0])} | {id(a) for a in alias_stmts}
+            for holder in ast.walk(fn):
+                for field in ('body', 'orelse', 'finalbody'):
+                    body = getattr(holder, field, None)
+                    if isinstance(body, list) and any(id(st) in drop for st in body):
+                        kept = [st for st in body if id(st) not in drop]
+                        if not kept and field == 'body':
+                            kept = [ast.copy_location(ast.Pass(), body[0])]
+                        setattr(holder, field, kept)
+            done = True
+            break
+        if not done:
+            return
 
 
 def _inline_attr_aliases(fn) -> None:
